@@ -403,6 +403,7 @@ def shard_sources(shard):
     fix.append('mkfile %s %s' % (enc('incdir.conf'), enc(b'include("d")\n')))
     fix.append('mkfile %s %s' % (enc('incnull.conf'), enc(b'include("/dev/null") b = z\n')))
     fix.append('mkfile %s %s' % (enc('incmissing.conf'), enc(b'include("nope.conf")\n')))
+    fix += ['passwd %s %s' % (enc('me'), enc(root + '/h')), 'me ' + enc('me'), 'mkdir ' + enc('h')]      # tilde forms as parse and include targets
     cases = []
     for fl in (0, CFGF['COMMENTS'], CFGF['IGNORE_UNKNOWN']):
         for k, t in enumerate(texts):
@@ -413,7 +414,7 @@ def shard_sources(shard):
             cases.append((robust_case('KS', fl, ('i%d.conf' % k).encode(), None, 'parse', pre=fix, fork=True, horizon=20, quiet=True), True))
             cases.append((robust_case('KS', fl, root.encode() + ('/t%d.conf' % k).encode(), None, 'parse', pre=fix, fork=True, horizon=20, quiet=True), True))
         for target in (b'd', b'empty.conf', b'/dev/null', b'nope.conf', b'self.conf', b'incdir.conf', b'incnull.conf', b'incmissing.conf',
-                       b''):
+                       b'', b'~', b'~/', b'~me', b'~me/', b'~nouser', b'~/nope.conf', b'~me/nope.conf', b'~~', b'/', b'.', b'..'):
             cases.append((robust_case('KS', fl, target, None, 'parse', pre=fix, fork=True, horizon=20, quiet=True), True))
             cases.append((robust_case('KS', fl, b'include("' + target + b'") b = z', None, 'parse_buf', pre=fix, fork=True, horizon=20, quiet=True), False))
     # diagnostics without a user error function go to stderr (never stdout); declarations with a repeated name only draw a diagnostic
